@@ -132,6 +132,11 @@ theorem inv_step (st : St) (op : Op) (h : Inv st) (hg : Guard st op) : Inv (step
     · exact h
     · exact Inv.congr_links (s := st) rfl rfl (fun _ => rfl) h
   | fsDelete i => exact Inv.congr_links (s := st) rfl rfl (fun _ => rfl) h
+  | cfgBreak i =>
+    simp only [step, cfgBreak]
+    split
+    · exact Inv.congr_links (s := st) rfl rfl (fun _ => rfl) h
+    · exact h
   | evCreated n o co =>
     cases n with
     | ready => exact inv_firstSync h hg
@@ -268,6 +273,7 @@ theorem C13_no_restart_partial (st : St) (op : Op) (h : Inv st) (hg : Guard st o
   cases op with
   | fsCreate j g' ok => simp only [step, fsCreate] at hr'; split at hr' <;> exact hr'
   | fsDelete j => exact hr'
+  | cfgBreak j => simp only [step, cfgBreak] at hr'; split at hr' <;> exact hr'
   | evCreated n o co =>
     cases n with
     | ready => exact hsync o co hg hr'
